@@ -3,8 +3,6 @@ import FitModel.ScaleOffset
 import FitModel.TimeAngle
 import FitModel.Bits
 import FitModel.Accum
-import FitModel.Expand
-import FitModel.Physical
 import FitModel.Generated.ProfileArith
 import Driver.Util
 import Driver.ValCodec
@@ -17,8 +15,6 @@ import Driver.MsgCodec
 -- @family tax Drv.Arith.hTax
 -- @family bits Drv.Arith.hBits
 -- @family accum Drv.Arith.hAccum
--- @family expand Drv.Arith.hExpand
--- @family expandx Drv.Arith.hExpandX
 /-! Driver handlers of the arithmetic layer (C12 / C05): parsing and printing only; every answer is
 computed by the definitions of `FitModel/F64.lean`, `ScaleOffset.lean`, … that the theorems are about. -/
 namespace Drv.Arith
@@ -441,146 +437,5 @@ def execAccum (args : List String) : String :=
     " ".intercalate (out ++ ["tab=" ++ ",".intercalate tab])
 
 def hAccum : Handler := modelOnly execAccum
-
-/-! ### expand -/
-open Fit.Msg Fit.Expand
-
-def profile : Profile := Fit.Gen.PA.mesgs
-
-def printMsgs (ms : List Message) : String := " ".intercalate (ms.map printMessage)
-
-def modelOn (ms : List Message) : List Message := decodeSeq componentValue profile true ms
-def specOn (ms : List Message) : List Message := decodeSeq Fit.Physical.specValue profile true ms
-
-/-- every physical value of the row is an integer: `dScale / cScale` and `(dOffset − cOffset) × dScale` are -/
-def rowExact (c : Fit.PA.Comp) (d : FieldBase) : Bool :=
-  match Fit.Physical.Q.ofF64 c.scale, Fit.Physical.Q.ofF64 c.offset, Fit.Physical.Q.ofF64 d.scale, Fit.Physical.Q.ofF64 d.offset with
-  | some cs, some co, some ds, some d0 =>
-    cs.num != 0 && (Fit.Physical.Q.div ds cs).isInt && (Fit.Physical.Q.mul (Fit.Physical.Q.sub d0 co) ds).isInt
-  | _, _, _, _ => false
-
-/-- all component lists a field of the message may expand with (its own and those of its sub-fields) -/
-def allComps (f : Fit.PA.Fld) : List Fit.PA.Comp := f.comps ++ f.subs.flatMap (·.comps)
-
-/-- field numbers of the message that a non-integer row feeds (there `within one unit` is all that is asked) -/
-def inexactDests (mesgNum : Nat) : List Nat :=
-  match profile.find? (·.1 == mesgNum) with
-  | none => []
-  | some (_, fs) => (fs.flatMap allComps).filterMap fun c =>
-      if rowExact c (createField profile mesgNum c.fieldNum).1 then none else some c.fieldNum
-
-/-- destination field numbers reachable from the fields present (transitively), any sub-field -/
-def destClosure (mesgNum : Nat) (present : List Nat) : List Nat :=
-  let step (ds : List Nat) : List Nat :=
-    (ds ++ (ds.flatMap fun n => match lookup profile mesgNum n with
-      | some f => (allComps f).map (·.fieldNum)
-      | none => [])).eraseDups
-  let seeds := (present.flatMap fun n => match lookup profile mesgNum n with
-      | some f => (allComps f).map (·.fieldNum)
-      | none => []).eraseDups
-  step (step (step (step seeds)))
-
-def elemsOf (v : Value) : Option (List Nat) :=
-  match Fit.ScaleOffset.scalarOf v with
-  | some (_, p) => some [p]
-  | none => (Fit.ScaleOffset.sliceOf v).map (·.2)
-
-/-- same type and every element within one unit -/
-def valuesWithinOne (a b : Value) : Bool :=
-  typeOf a == typeOf b &&
-    match elemsOf a, elemsOf b with
-    | some xs, some ys => xs.length == ys.length && (xs.zip ys).all fun p => p.1 ≤ p.2 + 1 && p.2 ≤ p.1 + 1
-    | _, _ => false
-
-/-- C05 on one decoded message: `impl` (expansion on), `spec` (the specification's expansion of the wire
-message), `off` (decoded with expansion off), `wire` (what was written) -/
-def checkMsg (wire impl spec off : Message) : Option String :=
-  let inex := inexactDests wire.num
-  if impl.num != spec.num || impl.fields.length != spec.fields.length then some "shape"
-  else if off != wire then some "off-differs-from-wire"
-  else
-    let bad := (impl.fields.zip spec.fields).find? fun p =>
-      !(p.1 == p.2 ||
-        (p.1.base == p.2.base && p.1.isExpanded == p.2.isExpanded &&
-          (match fieldNum p.1 with | some n => inex.contains n | none => false) && valuesWithinOne p.1.value p.2.value))
-    match bad with
-    | some p => some s!"value-field-{(fieldNum p.1).getD 999}"
-    | none =>
-      -- expansion off = on minus expanded fields; wire fields that are not destinations are untouched
-      let kept := impl.fields.filter (!·.isExpanded)
-      let dests := destClosure wire.num (wire.fields.filterMap fieldNum)
-      if kept.length != off.fields.length then some "off-count"
-      else match (kept.zip off.fields).find? fun p =>
-          !(p.1 == p.2 || (p.1.base == p.2.base && (match fieldNum p.1 with | some n => dests.contains n | none => false))) with
-        | some p => some s!"touched-field-{(fieldNum p.1).getD 999}"
-        | none => none
-
-def splitOnOff (toks : List String) : Option (List String × List String) :=
-  match toks with
-  | "on" :: rest =>
-    let on := rest.takeWhile (· != "off")
-    match rest.dropWhile (· != "off") with
-    | "off" :: off => some (on, off)
-    | _ => none
-  | _ => none
-
-def hExpand : Handler := fun r =>
-  match r.args.mapM parseMessage with
-  | none => "bad-op"
-  | some ms =>
-    match r.mode with
-    | .model => ("on " ++ printMsgs (modelOn ms) ++ " off " ++ printMsgs ms).trimAscii.toString
-    | .spec => "n/a"
-    | .kf => if modelOn ms != specOn ms then "KF-C05-1" else "-"
-    | .prop =>
-      match splitOnOff ((r.impl.splitOn " ").filter (· ≠ "")) with
-      | none => "fail:not-decoded:" ++ r.impl
-      | some (on, off) =>
-        match on.mapM parseMessage, off.mapM parseMessage with
-        | some on, some off =>
-          let spec := specOn ms
-          if on.length != ms.length || off.length != ms.length then "fail:message-count"
-          else
-            let rs := (List.range ms.length).filterMap fun i =>
-              match ms[i]?, on[i]?, spec[i]?, off[i]? with
-              | some w, some a, some b, some c => (checkMsg w a b c).map fun e => s!"msg{i}:{e}"
-              | _, _, _, _ => some "index"
-            match rs with
-            | [] => "ok"
-            | e :: _ => "fail:" ++ e
-        | _, _ => "fail:unparsable-answer"
-
-def setScalar (v : Value) (raw : Nat) : Option Value :=
-  match Fit.ScaleOffset.scalarOf v with
-  | some (.int ty, _) => some (Fit.ScaleOffset.mkScalar (.int ty) (raw % 2 ^ ty.bits))
-  | _ => none
-
-def fnvStr (d : UInt64) (s : String) : UInt64 :=
-  s.toUTF8.foldl (fun d b => (d ^^^ b.toUInt64) * 0x100000001b3) d
-
-def hExpandX : Handler := fun r =>
-  match r.args with
-  | [idx, lo, n, tmpl] =>
-    match idx.toNat?, lo.toNat?, n.toNat?, parseMessage tmpl with
-    | some idx, some lo, some n, some t =>
-      match t.fields[idx]? with
-      | none => "bad-op"
-      | some f =>
-        if n > 2 ^ 16 then "bad-op" else
-        match (List.range n).mapM fun i => (setScalar f.value (lo + i)).map fun v =>
-            { t with fields := t.fields.set idx { f with value := v } } with
-        | none => "bad-op"
-        | some ms =>
-          let dig (out : List Message) : String :=
-            s!"n={out.length} digest={hexN 16 (out.foldl (fun d m => fnvStr d (printMessage m ++ "\n")) fnvInit).toNat}"
-          -- the rows the container can feed are all integer-preserving: the specification's output is unique
-          let unique := (destClosure t.num (t.fields.filterMap fieldNum)).all fun n => !(inexactDests t.num).contains n
-          match r.mode with
-          | .model => dig (modelOn ms)
-          | .spec => if unique then dig (specOn ms) else "n/a"
-          | .kf => if modelOn ms != specOn ms then "KF-C05-1" else "-"
-          | .prop => "n/a"
-    | _, _, _, _ => "bad-op"
-  | _ => "bad-op"
 
 end Drv.Arith
